@@ -42,6 +42,21 @@ Theorem C06_complete_without_terminating_rules : forall pol path vs,
 Proof. intros pol path vs Hnt. exact (find_verifiers_complete_noterm pol path Hnt vs). Qed.
 Print Assumptions C06_complete_without_terminating_rules.
 
+(** Corollary, the property's own wording at every delegation depth: a path matched by a
+    non-trailing rule of any file the walk enters is never reported unprotected. *)
+Theorem C06_reachable_match_is_protected : forall pol path vs,
+  (forall n file r, find_file pol n = Some file -> In r (f_rules file) -> r_term r = false) ->
+  find_verifiers pol path = WOk vs ->
+  (exists f file r, Entered pol path f /\ find_file pol f = Some file /\ In r (removelast (f_rules file)) /\
+     rule_matches r path = true) ->
+  vs <> [].
+Proof.
+  intros pol path vs Hnt H (f & file & r & He & Hf & Hin & Hm).
+  destruct (C06_complete_without_terminating_rules pol path vs Hnt H f file r He Hf Hin Hm) as (v & Hv & _).
+  intros ->. exact Hv.
+Qed.
+Print Assumptions C06_reachable_match_is_protected.
+
 (** non-vacuity: a two-level policy without terminating rules whose delegated file is entered *)
 Definition c06_deleg_policy : policy :=
   [ (TargetsRole, {| f_defs := [(1%N, [1%N])];
